@@ -13,12 +13,13 @@ meta = json.load(open(os.path.join(seed, 'meta.json')))
 props = sys.argv[2:] or [meta['property']]
 patch = os.path.abspath(os.path.join(seed, 'patch.diff'))
 assert subprocess.run(['git', '-C', '/repo', 'status', '--porcelain', '--untracked-files=no'], capture_output=True, text=True).stdout.strip() == '', '/repo not clean'
-if subprocess.run(['git', '-C', '/repo', 'apply', patch]).returncode != 0:
-    # HEAD moved since the seed was made (fix: commits): fall back to a 3-way apply; keep only the working-tree change
-    subprocess.run(['git', '-C', '/repo', 'apply', '--3way', patch], check=True)
-    subprocess.run(['git', '-C', '/repo', 'reset', '-q'], check=True)
 results = {}
 try:
+    if subprocess.run(['git', '-C', '/repo', 'apply', patch], capture_output=True).returncode != 0:
+        # HEAD moved since the seed was made (fix: commits): fall back to a 3-way apply; keep only the working-tree change
+        subprocess.run(['git', '-C', '/repo', 'apply', '--3way', patch], check=True, capture_output=True)
+        subprocess.run(['git', '-C', '/repo', 'reset', '-q'], check=True)
+        assert '<<<<<<<' not in subprocess.run(['git', '-C', '/repo', 'diff'], capture_output=True, text=True).stdout, 'conflict: rebase the seed patch'
     for p in props:
         r = subprocess.run(['./check', p, '--tier', 'quick'], cwd=VERIF, capture_output=True, text=True,
                            env=dict(os.environ, VERIF_SEED=os.environ.get('VERIF_SEED', '0')))
@@ -36,6 +37,6 @@ try:
         else:
             print('\n'.join('    ' + l for l in r.stdout.splitlines()[-3:]))
 finally:
-    subprocess.run(['git', '-C', '/repo', 'checkout', '--', '.'], check=True)
+    subprocess.run(['git', '-C', '/repo', 'reset', '-q', '--hard', 'HEAD'], check=True)
     subprocess.run(['git', '-C', '/repo', 'clean', '-fdq', '--', 'dimod'], check=False)
 json.dump(results, open(os.path.join(seed, 'last_run.json'), 'w'))
